@@ -1,4 +1,4 @@
 # Words for MANIFEST.json come from checks.d/<ID>.json ("manifest" key).
 from checks_config import PROPS
-HOOK_COMMITS = ["12109f0"]
+HOOK_COMMITS = ["12109f0", "433c040"]
 TEXTS = {pid: cfg["manifest"] for pid, cfg in PROPS.items() if "manifest" in cfg}
